@@ -672,6 +672,8 @@ class BuiltinCalls:
         esym = esym.sym if isinstance(esym, Num) else None
         full = not (s.flags & {"partial", "reordered", "building", "weak-append", "cond-append", "multi-append", "unmodelled"})
         sym = mk_sym("fold", ("const", "+"), ("const", fv), esym, ("lenterm", s.length.term)) if s.length.term is not None and esym is not None and full else None
+        if sym is not None and not (sn.const is not None and sn.const == 0):
+            sym = mk_sym("add", sn.sym, sym) if sn.sym is not None else None  # the start value is part of the sum
         I.event("fold", node, how="sum", seq=s, elem=en, sym=sym, full=full)
         wt = None
         if I.shift_mode:
